@@ -32,8 +32,35 @@ from fractions import Fraction
 import numpy as np
 
 from harness.core import f2b, b2f, flist, unjson_float
+from harness import c12_r7_fixtures as r7
 
-MODEL_MODULES = ['SkyllhModel.Model.Stat']
+MODEL_MODULES = ['SkyllhModel.Model.Stat', 'SkyllhModel.Model.PolyFitR7']
+
+# which Python callables have an executable Lean counterpart that the theorems are about AND that run(ctx) compares with the
+# real callable on every run (harness/core.py model_map_report checks keys against the source and names against the model files)
+MODEL_MAP = {
+    'skyllh/core/test_statistic.py::WilksTestStatistic.__call__': ['Stat.tsCall', 'Stat.ts', 'Stat.sgnNs', 'Stat.npSign'],
+    'skyllh/core/test_statistic.py::LLHRatioZeroNsTaylorWilksTestStatistic.__call__': [
+        'Stat.tsTaylorCall', 'Stat.tsTaylor', 'Stat.tsApex', 'Stat.tsTaylorOnCode', 'Stat.tsTaylorOnMulti', 'Stat.tsTaylorOnProf'],
+    'skyllh/core/parameters.py::ParameterModelMapper.get_gflp_idx': ['Stat.gflpIdx'],
+    'skyllh/core/llhratio.py::ZeroSigH0SingleDatasetTCLLHRatio.calculate_log_lambda_and_grads': [
+        'Stat.llrCode', 'Stat.nsGradCode', 'Stat.logLambdaICode', 'Stat.nsGradICode', 'Stat.isStable', 'Stat.tildeAlpha',
+        'Stat.LlhSt.evaluateCode'],
+    'skyllh/core/llhratio.py::ZeroSigH0SingleDatasetTCLLHRatio.calculate_ns_grad2': ['Stat.LlhSt.grad2Code', 'Stat.nsGrad2'],
+    'skyllh/core/llhratio.py::ZeroSigH0SingleDatasetTCLLHRatio.initialize_for_new_trial': ['Stat.LlhSt.fresh'],
+    'skyllh/core/llhratio.py::MultiDatasetTCLLHRatio.evaluate': ['Stat.MultiSt.evaluate', 'Stat.multiLlr', 'Stat.multiNsGrad'],
+    'skyllh/core/llhratio.py::MultiDatasetTCLLHRatio.calculate_ns_grad2': ['Stat.MultiSt.grad2', 'Stat.kidsGrad2', 'Stat.nsGrad2Multi'],
+    'skyllh/core/llhratio.py::MultiDatasetTCLLHRatio.initialize_for_new_trial': ['Stat.MultiSt.newTrial'],
+    'skyllh/core/llhratio.py::NsProfileMultiDatasetTCLLHRatio.initialize_for_new_trial': ['Stat.ProfSt.newTrial'],
+    'skyllh/core/llhratio.py::NsProfileMultiDatasetTCLLHRatio.evaluate': ['Stat.ProfSt.evaluate', 'Stat.ProfSt.llr'],
+    'skyllh/core/llhratio.py::NsProfileMultiDatasetTCLLHRatio.calculate_ns_grad2': ['Stat.ProfSt.grad2'],
+    'skyllh/core/utils/analysis.py::calculate_pval_from_trials': ['Stat.pval', 'Stat.pvalCounts', 'Stat.pOf', 'Stat.pSigma'],
+    'skyllh/core/utils/analysis.py::calculate_pval_from_trials_mixed': ['Stat.pvalMixed'],
+    'skyllh/core/utils/analysis.py::calculate_pval_from_gammafit_to_trials': ['Stat.pGamma', 'Stat.truncSample'],
+    'skyllh/core/utils/analysis.py::polynomial_fit': [
+        'Stat.polynomialFitData', 'Stat.polyfitR7', 'Stat.lsq1', 'Stat.lsq2', 'Stat.polyFit', 'Stat.polySwitch',
+        'Stat.polyInvert1', 'Stat.polyInvert2', 'Stat.polyDisc'],
+}
 
 TS_FILE = 'skyllh/core/test_statistic.py'
 LLH_FILE = 'skyllh/core/llhratio.py'
@@ -203,6 +230,11 @@ def generated(ctx):
     from harness.extract import lean_float
     L += ['/-- `ZeroSigH0SingleDatasetTCLLHRatio._one_plus_alpha` -/',
           'def onePlusAlpha {F : Type} [OfScientific F] : F := %s' % lean_float(d['opa']), '']
+    from harness.core import REPO
+    pc = r7.lean_polyfit_calls(REPO)
+    if pc is None:
+        _fail('no np.polyfit call found inside polynomial_fit (%s)' % r7.ANA_UTILS)
+    L += [pc]
     L += ['end Gen.C12', '']
     return '\n'.join(L)
 
@@ -1269,6 +1301,20 @@ def o_poly(ctx, case):
     return None
 
 
+def o_poly_data(ctx, case):
+    """a `pfd` case as a property oracle: for a sample np.polyfit accepts (equal lengths, at least deg + 2 points, degree 1 or 2)
+    the inversion oracle `poly`; the argument checks of np.polyfit themselves are a contract of the model correspondence only"""
+    x, y, w, deg = _fl(case['x']), _fl(case['y']), _fl(case['w']), case['deg']
+    if deg not in (1, 2) or not (len(x) == len(y) == len(w)) or len(x) <= deg + 1:
+        return None
+    try:
+        _polyfit(x, y, deg, w)
+        _polyfit(x, y, 1, w)
+    except Exception:  # noqa
+        return None
+    return o_poly(ctx, dict(case, kind='poly'))
+
+
 def o_poly_equivariance(ctx, case):
     """the inversion does not depend on the unit or origin of the signal-strength axis: fitting p against lam*ns returns
     lam times the signal strength (lam a power of two: every intermediate quantity scales exactly, so even the branch
@@ -1546,6 +1592,8 @@ def corr_request(case):
         except Exception:  # noqa
             pd, p1 = [], []
         return 'poly %d %s %s %s' % (deg, flist(pd), flist(p1), f2b(_f(case['pthr'])))
+    if k == 'pfd':
+        return r7.request(case, _fl, _f)
     if k == 'bind':
         return 'bind %s %s %d %d %s' % (_names(case['params']), _names(case['required']), 1 if case['kwargs'] else 0,
                                          case['npos'], _names(case['kws']))
@@ -1681,7 +1729,7 @@ ALL_BRANCHES = [
     'polySwitch:opens-upwards', 'polySwitch:never-reaches-p_thr', 'polySwitch:no', 'polyFit:line:ok', 'polyFit:line:notFinite',
     'polyFit:parabola:ok', 'polyFit:parabola:notFinite', 'polyFit:indexError', 'polyFit:valueError',
     'pyBind:ok', 'pyBind:unexpectedKeyword', 'pyBind:multipleValues', 'pyBind:tooManyPositional', 'pyBind:missing',
-]
+] + r7.PFD_BRANCHES
 # branches of the model that the real code cannot reach (kept in the model for totality; not an untied code path)
 UNREACHABLE_BY_CONSTRUCTION = {
     'polyFit:indexError': 'np.polyfit always returns deg+1 coefficients',
@@ -1737,6 +1785,8 @@ def _branches(case, model):
                 out.append('polyFit:%s:%s' % ('line' if line else 'parabola', 'notFinite' if t[0] == 'err' and t[1] == 'N' else 'ok'))
         except Exception:  # noqa
             pass
+    elif k == 'pfd':
+        out += r7.branches(case, model)
     elif k == 'bind':
         out.append('pyBind:' + ('ok' if model == 'ok' else {'unexp': 'unexpectedKeyword', 'multi': 'multipleValues', 'pos': 'tooManyPositional',
                                                                 'miss': 'missing'}[model.split(' ')[1].split(':')[0]]))
@@ -1788,6 +1838,8 @@ def o_corr(ctx, case):
         return _corr_lh(ctx, [case])[0]
     if case['kind'] == 'mh':
         return _corr_mh(ctx, [case])[0]
+    if case['kind'] == 'pfd':
+        return r7.compare(ctx, case, ctx.driver('C12', [corr_request(case)])[0], _fl, _f)
     return corr_compare(case, ctx.driver('C12', [corr_request(case)])[0])
 
 
@@ -1894,7 +1946,7 @@ def _corr_hist(ctx, hcases):
     return res
 
 
-ORACLES = {'obj_history': o_obj_history, 'poly_equivariance': o_poly_equivariance, 'gamma_real': o_gamma_real, 'llh_history': o_llh_history, 'purity': o_purity, 'ts_history': o_ts_history, 'ts': o_ts, 'ts_taylor': o_ts_taylor, 'ts_real': o_ts_real, 'ana_chain': o_ana_chain,
+ORACLES = {'poly_data': o_poly_data, 'obj_history': o_obj_history, 'poly_equivariance': o_poly_equivariance, 'gamma_real': o_gamma_real, 'llh_history': o_llh_history, 'purity': o_purity, 'ts_history': o_ts_history, 'ts': o_ts, 'ts_taylor': o_ts_taylor, 'ts_real': o_ts_real, 'ana_chain': o_ana_chain,
            'pval': o_pval, 'mixed': o_mixed, 'poly': o_poly, 'corr': o_corr}
 
 # property oracle looking at the same behaviour as a correspondence kind, and how to turn the case into its input
@@ -1908,6 +1960,7 @@ _ORACLE_OF_KIND = {
     'pv': [('pval', lambda c: {'tsv': c['tsv'], 'thrs': [c['thr']]})],
     'mix': [('mixed', lambda c: c), ('pval', lambda c: {'tsv': c['tsv'], 'thrs': [c['thr']]})],
     'poly': [('poly', lambda c: c)],
+    'pfd': [('poly_data', lambda c: c)],
 }
 
 
@@ -2174,18 +2227,25 @@ def run(ctx):
                 '0..20 pure-background events); TS samples of 0..200 values (grid values with ties and duplicates, constant, '
                 'chi2-like, floats) x thresholds at sample values, their float neighbours, midpoints, outside, +-inf; monotone '
                 'p(ns) curves (linear, concave, convex, sigmoid; increasing and decreasing) with binomial noise, 3..12 points, '
-                'degrees 1 and 2 (0 and 3 for the error path); every helper with its array arguments as list / int64 / float32 / float64 / '
+                'degrees 1 and 2 (0 and 3 for the error path), each also from the data through the modelled np.polyfit plus its argument-check / boundary classes '
+                '(deg < 0, zero length, unequal lengths, n = deg+1, n = deg+2, all x equal, duplicated x, zero weight); every helper with its array arguments as list / int64 / float32 / float64 / '
                 'read-only / non-contiguous arrays, called twice on the same objects; generated Python signatures x calls; a case is non-trivial when '
                 'distinct by (kind, all inputs)')
     ctx.trusted_base += ['correspondence harness harness/props/c12.py (relations stated in its docstring)',
                          'harness/llh_fixtures.py stub PDF ratios / yields around the real LLH-ratio classes',
-                         'np.polyfit (LAPACK) is recorded, only the inversion is modelled',
+                         'np.polyfit: the least-squares problem and the argument checks are modelled (Model/PolyFitR7.lean, exact rationals in the driver); '
+                         'the rounding of LAPACK enters through a forward-error bound (kappa, kappa^2 * residual) of harness/c12_r7_fixtures.py; the kind poly still '
+                         'feeds the recorded coefficients into the inversion',
                          'ast extraction of signatures and call-site keywords (harness/extract.py)',
                          'IEEE rounding is outside the theorems (statements over ℝ / linear orders)']
     ctx.assumptions += ['fit results and TS values are not NaN (±inf is generated; a NaN ns propagates to a NaN TS in the code and is outside the model)',
                         'the gamma fit itself (iminuit, scipy.stats.gamma) is not modelled: its survival function is abstract in the theorems; the real fit is '
                         'run by the gamma_real oracle', 'a returned signal strength may lie outside the sampled ns range (extrapolation of the fitted '
-                        'curve): the property asks for a point of the fitted curve, not for one inside the data']
+                        'curve): the property asks for a point of the fitted curve, not for one inside the data',
+                        'samples on which the normal equations are singular (all weighted points at one abscissa; fewer distinct abscissae than '
+                        'coefficients) or numerically ill conditioned (coefficient bound > 1e-3) are outside the comparison: numpy may raise or return '
+                        'meaningless numbers there (counted as pfd:rank-deficient / pfd:ill-conditioned-not-compared)',
+                        'p_weight is used as numpy uses it (multiplies the residuals, i.e. 1/sigma): c12_lsq_minimises is about sum (w_i (y_i - P(x_i)))^2']
     cases, ocases = [], []
 
     # ---- test statistic on pmm layouts
@@ -2309,6 +2369,7 @@ def run(ctx):
         ctx.count('glue:deg-as-' + c['deg_form'])
         ctx.count('glue:poly-sequences-as-' + c['seq_form'])
         cases.append(c)
+        cases.append({'kind': 'pfd', 'x': xs, 'y': ys, 'w': ws, 'deg': deg, 'pthr': pthr})
         ocases.append(('poly', c))
         ocases.append(('poly_equivariance', c))
         ctx.count('poly:deg=%d' % deg)
@@ -2336,6 +2397,14 @@ def run(ctx):
         cases.append({'kind': 'fwd', 'outer': rng.sample(_PNAMES, rng.randrange(0, 4)), 'fixed': rng.sample(_PNAMES[5:], 2),
                       'kws': rng.sample(_PNAMES[:5], rng.randrange(0, 5))})
 
+    # ---- np.polyfit's argument checks / rank deficiency / boundary sizes as reached through polynomial_fit (round 7)
+    for _ in range(ctx.n(2, 60)):
+        for c in r7.gen_error_cases(rng):
+            ctx.count('pfd:class=' + c.pop('cls'))
+            cases.append(c)
+    # an upward-opening parabola (degree switch, second fit) and a flat curve, in every run
+    cases += [{'kind': 'pfd', 'x': [0.0, 1.0, 2.0, 3.0, 4.0], 'y': [0.05, 0.1, 0.25, 0.5, 0.85], 'w': [10.0] * 5, 'deg': 2, 'pthr': 0.5},
+              {'kind': 'pfd', 'x': [0.0, 1.0, 2.0, 3.0, 4.0], 'y': [0.0] * 5, 'w': [10.0] * 5, 'deg': 2, 'pthr': 0.5}]
     # ---- directed cases: one per branch of the model that random generation does not reach in every run
     o4 = [2.5, -2.5, 0.0, 7.0]
     cases += [
@@ -2370,7 +2439,7 @@ def run(ctx):
         ctx.count('corr:' + c['kind'])
         for lab in _branches(c, m):
             ctx.count('branch:' + lab)
-        d = corr_compare(c, m)
+        d = r7.compare(ctx, c, m, _fl, _f) if c['kind'] == 'pfd' else corr_compare(c, m)
         if d:
             suspicious.append((c, m, d))
     for c, d in zip(reals, _corr_real(ctx, reals)):
@@ -2435,12 +2504,12 @@ MANIFEST = dict(
     text=('Lean theorems over ℝ / any linear order for the executable model Model/Stat.lean: TS = 2 sgn(ns) logΛ with sgn(0)=+1, '
           'zero-ns Taylor TS = documented -2a²/(4b) where a, b are proved to be the first and second ns-derivative of logΛ, '
           'b < 0 (so the quotient exists), p-values in [0,1], antitone in the threshold, inclusive >= strict, p_sigma real, '
-          'degree-1/2 inversion returns a point of the fitted curve on its rising branch, degree switch; call-compatibility of '
+          'degree-1/2 inversion returns a point of the fitted curve on its rising branch, degree switch, and — from the data — the fitted curve is the weighted least-squares polynomial (np.polyfit inside the model); call-compatibility of '
           'calculate_ns_grad2 and of the Analysis -> TestStatistic call chain decided over signatures regenerated from the source. '
           'The model is compared on every run with the real TestStatistic classes (real ParameterModelMapper, real single- and '
           'multi-dataset LLH ratios; single calls and histories of calls on one instance), calculate_pval_from_trials(_mixed), polynomial_fit and the Python interpreter\'s keyword binding.'),
     note=('the model is stateless: object state of the TestStatistic classes is covered by history-level correspondence and a '
-          'fresh-vs-used-object oracle, not by a state-machine theorem; np.polyfit is recorded, not modelled; the gamma-fit branch of the mixed p-value is only checked for routing; IEEE rounding '
+          'fresh-vs-used-object oracle, not by a state-machine theorem; np.polyfit: its least-squares problem and argument checks are modelled (Model/PolyFitR7.lean, exact rationals; theorem: the result minimises the weighted cost), the rounding of LAPACK is covered by a conditioning-dependent tolerance and rank-deficient samples are not compared; the gamma-fit branch of the mixed p-value is only checked for routing; IEEE rounding '
           'is outside the theorems; the second derivative is proved for the numerically stable regime (which contains ns = 0).'),
     design='DESIGN.md section 4 C12',
     technique='Lean 4 proof (real analysis: HasDerivAt, order/counting induction, algebra) + decide over generated signatures + '
